@@ -23,6 +23,7 @@ type c17Conn struct {
 	Faults   bool  `json:"net_faults"`
 	ReadBuf  int   `json:"hijack_read_buf"`
 	ClientFirst bool `json:"client_closes_first"`
+	ReqConn  string `json:"hijacking_request_connection,omitempty"` // "" | close | http10: the response ends HTTP on this connection; the hijack is still due
 }
 
 type c17Plan struct {
@@ -42,9 +43,9 @@ func scenC17(e *Env) func() {
 	n := e.Range(1, 4)
 	var subs []simnet.Faults
 	for ci := 0; ci < n; ci++ {
-		c := c17Conn{Before: e.Range(0, 2), TailLen: Pick(e, 0, 1, 5, 100, 4000, 4096, 5000, 8192, 9000), ReadBuf: Pick(e, 4096, 1, 7, 100, 10000), Faults: e.Chance(30), ClientFirst: e.Chance(20), StaleNoResp: e.Chance(30)}
+		c := c17Conn{Before: e.Range(0, 2), TailLen: Pick(e, 0, 1, 5, 100, 4000, 4096, 5000, 8192, 9000), ReadBuf: Pick(e, 4096, 1, 7, 100, 10000), Faults: e.Chance(30), ClientFirst: e.Chance(20), StaleNoResp: e.Chance(30), ReqConn: Pick(e, "", "", "", "close", "http10")}
 		// stream = before-requests + hijack request + tail; cut anywhere
-		total := c.Before*40 + 60 + c.TailLen
+		total := c.Before*40 + 80 + c.TailLen
 		c.Cuts = e.Cuts(total, Pick(e, 0, 1, 2, 5))
 		for range c.Cuts {
 			c.PauseMs = append(c.PauseMs, Pick(e, 0, 0, 0, 1, 50, 700))
@@ -135,7 +136,14 @@ func c17Run(e *Env, p *c17Plan, subs []simnet.Faults) {
 					fmt.Fprintf(&stream, "GET /plain-%d HTTP/1.1\r\nHost: x\r\n\r\n", i)
 				}
 			}
-			stream.WriteString("GET /hijack HTTP/1.1\r\nHost: x\r\nX-Pad: " + strings.Repeat("p", 10) + "\r\n\r\n")
+			switch c.ReqConn {
+			case "close":
+				stream.WriteString("GET /hijack HTTP/1.1\r\nHost: x\r\nConnection: close\r\nX-Pad: " + strings.Repeat("p", 10) + "\r\n\r\n")
+			case "http10":
+				stream.WriteString("GET /hijack HTTP/1.0\r\nHost: x\r\nX-Pad: " + strings.Repeat("p", 10) + "\r\n\r\n")
+			default:
+				stream.WriteString("GET /hijack HTTP/1.1\r\nHost: x\r\nX-Pad: " + strings.Repeat("p", 10) + "\r\n\r\n")
+			}
 			tail := make([]byte, c.TailLen)
 			for i := range tail {
 				tail[i] = tailPat(ci, i)
@@ -221,7 +229,11 @@ func c17Run(e *Env, p *c17Plan, subs []simnet.Faults) {
 			continue
 		}
 		if !rec.entered {
-			e.Violation("not-hijacked", "conn %d: the hijack handler never ran (client saw %q)", ci, clip(string(ex.Trailing), 200))
+			sig := "not-hijacked"
+			if c.ReqConn != "" {
+				sig += "/closing-request"
+			}
+			e.Violation(sig, "conn %d (hijacking request: %q): the hijack handler never ran (client saw %q)", ci, c.ReqConn, clip(string(ex.Trailing), 200))
 			return
 		}
 		e.Nontrivial = true
@@ -230,7 +242,7 @@ func c17Run(e *Env, p *c17Plan, subs []simnet.Faults) {
 		if p.NoResponse {
 			wantResp = c.Before
 		}
-		gotResp := strings.Count(string(rec.sentAtEntry), "HTTP/1.1 200 OK")
+		gotResp := strings.Count(string(rec.sentAtEntry), "HTTP/1.1 200 OK") + strings.Count(string(rec.sentAtEntry), "HTTP/1.0 200 OK")
 		bodyDone := p.NoResponse || strings.HasSuffix(string(rec.sentAtEntry), "hijack-resp")
 		e.Ob(1)
 		if gotResp != wantResp || !bodyDone {
